@@ -445,7 +445,8 @@ def hunt2_rules(chk, repo):
     # ---- C04.length: write_eof(data) is bound by the declared length like write(data) ---------------------------------------------------------
     we = sw.methods["write_eof"]
     cut = [a for a in ast.walk(we.node) if isinstance(a, ast.Assign) and norm.raw(a.targets[0]) == "chunk" and isinstance(a.value, ast.Subscript) and "self.length" in norm.raw(a.value.slice)]
-    dec = [a for a in ast.walk(we.node) if isinstance(a, ast.AugAssign) and norm.raw(a.target) == "self.length" and isinstance(a.op, ast.Sub)]
+    dec = [a for a in ast.walk(we.node) if (isinstance(a, ast.AugAssign) and norm.raw(a.target) == "self.length" and isinstance(a.op, ast.Sub))
+           or (isinstance(a, ast.Assign) and norm.raw(a.targets[0]) == "self.length" and isinstance(a.value, ast.BinOp) and isinstance(a.value.op, ast.Sub) and norm.raw(a.value.left) == "self.length")]
     if cut and dec:
         chk.ok("C04.length", cut[0], "write_eof(data): the final chunk is truncated to the remaining declared length and accounted for")
     else:
